@@ -58,6 +58,8 @@ class RecordingDeque(collections.deque):
 def gen(rng, tier, index):
     flavour = rng.choice(["serial", "tcp"])
     scenario = rng.choice(["A", "A", "A", "B", "S"])
+    if rng.random() < 0.04:
+        scenario = "F"
     policy = rng.choice(["pct", "pct", "rw", "rw"])
     sched = {"policy": policy, "seed": rng.getrandbits(32)}
     if policy == "pct":
@@ -67,8 +69,10 @@ def gen(rng, tier, index):
         sched["p"] = rng.choice([0.01, 0.03, 0.08, 0.2])
     events = EVENTS_TCP if flavour == "tcp" else EVENTS_SERIAL
     return {"cfg": {"flavour": flavour, "version": rng.choice(["1.4", "2.0", "2.2"]) if scenario != "S" else rng.choice(["2.0", "2.1", "2.2"]), "scenario": scenario,
-                    "event": rng.choice(events) if scenario == "A" else "none", "n_cmds": rng.randint(1, 6),
-                    "producers": rng.randint(2, 4) if scenario in ("B", "S") else 1, "gaps": [rng.choice([0, 0, 0.005, 0.02, 0.03]) for _ in range(8)],
+                    "event": rng.choice(events) if scenario == "A" else "none",
+                    # F(lood): the pump is held up in one slow write while the producers queue hundreds of commands
+                    "n_cmds": rng.randint(1, 6) if scenario != "F" else rng.choice([40, 90, 130]),
+                    "producers": rng.randint(2, 4) if scenario in ("B", "S") else (3 if scenario == "F" else 1), "gaps": [rng.choice([0, 0, 0.005, 0.02, 0.03]) for _ in range(8)],
                     "event_delay": rng.choice([0, 0, 0.001, 0.01, 0.02, 0.0205, 0.04]), "sched": sched,
                     "slow_send": flavour == "tcp" and rng.random() < 0.4}}
 
@@ -80,7 +84,7 @@ def _vio(cls, detail, **sig):
 
 def run(case):
     cfg = case["cfg"]
-    world = W.World(cfg["flavour"], {"protocol_version": cfg["version"]}, sched=cfg["sched"], window=window, max_steps=300_000)
+    world = W.World(cfg["flavour"], {"protocol_version": cfg["version"]}, sched=cfg["sched"], window=window, max_steps=300_000 if cfg["scenario"] != "F" else 2_000_000)
     sim = world.sim
     violations, probes = [], {}
     incomplete = None
@@ -88,7 +92,8 @@ def run(case):
         try:
             gateway = world.build()
             world.device.slow_send = bool(cfg.get("slow_send"))
-            rec = RecordingDeque()
+            # (same kind of queue as the library made - also the same bound, if it ever gets one)
+            rec = RecordingDeque(gateway.tasks.queue, gateway.tasks.queue.maxlen)
             gateway.tasks.queue = rec
             world.start()
             world.feed("1;255;0;0;17;2.0\n1;1;0;0;23;x\n")
@@ -108,7 +113,8 @@ def run(case):
                     tag = f"p{pid}c{i}"
                     tags.append(tag)
                     gateway.set_child_value(1, 1, 24, tag)
-                    kernel.TimeShim.sleep(cfg["gaps"][(pid + i) % len(cfg["gaps"])])
+                    if cfg["scenario"] != "F" or i % 16 == 15:
+                        kernel.TimeShim.sleep(cfg["gaps"][(pid + i) % len(cfg["gaps"])])
 
             def teardown():
                 kernel.TimeShim.sleep(cfg["event_delay"])
@@ -131,6 +137,17 @@ def run(case):
 
             if cfg["event"] == "read_error":
                 world.device.connect_plan = ["fail", "fail", "ok"]
+            if cfg["scenario"] == "F":
+                stalled = []
+
+                def stall(_conn, _data):
+                    # the first write of the production phase does not return for a while (flow control, a hanging port)
+                    if not stalled:
+                        stalled.append(sim.now)
+                        probes["pump_stalled_in_write"] = 1
+                        sim.sleep(1.5)
+
+                world.device.write_hook = stall
             for pid in range(cfg["producers"]):
                 sim.spawn(producer, pid, role="controller")
             if cfg["scenario"] == "A":
@@ -140,7 +157,8 @@ def run(case):
                     sim.sleep(cfg["gaps"][i % len(cfg["gaps"])] or 0.013)
                     world.device.inject(("3;1;2;0;24;\n" + wake).encode())  # a value request (held) and the next wake-up
                     probes["wakeups_during_production"] = probes.get("wakeups_during_production", 0) + 1
-            sim.sleep(1.0)
+            sim.sleep(1.0 if cfg["scenario"] != "F" else 4.0)
+            world.device.write_hook = None
             world.settle()
             # ---- observations -------------------------------------------------------------
             for role, exc, trace in sim.died:
@@ -186,7 +204,7 @@ def run(case):
                 if line:
                     appended.append(line[:-1].split(";", 5)[-1])
             appended = [a for a in appended if a in set(tags)]
-            if cfg["scenario"] in ("B", "S") and not violations:
+            if cfg["scenario"] in ("B", "S", "F") and not violations:
                 missing = [t for t in tags if seen[t] == 0]
                 if missing:
                     violations.append(_vio("command-lost-with-link-up", {"missing": missing, "written": order}))
@@ -231,7 +249,7 @@ def run(case):
         now = sim.now
         pre = sim.preemptions
         world.close()
-    nontrivial = bool(pre and (probes.get("teardown_while_queued") or cfg["scenario"] in ("B", "S")))
+    nontrivial = bool(pre and (probes.get("teardown_while_queued") or cfg["scenario"] in ("B", "S", "F")))
     return {"violations": violations, "digest": digest, "nontrivial": nontrivial, "key": inter or digest, "probes": probes,
             "faults": {cfg["event"]: 1}, "steps": steps, "sim_seconds": now, "incomplete": incomplete, "interleaving": inter,
             "sched": sched, "states": [],
